@@ -440,8 +440,8 @@ func runC11(e *Env) error {
 		c11CLI(e, pool)
 		c11CLIScripted(e, pool)
 		c11CLIInterrupted(e, pool)
-		c11PGClean(e)
-		c11MyClean(e)
+		c11PGClean(e, pool)
+		c11MyClean(e, pool)
 	}
 	return nil
 }
